@@ -47,7 +47,7 @@ theorem c06_keyword_history_independent (h h' : List (Op K)) (hsame : TEquiv (ta
   obsEq_of_inv (run_inv h) (run_inv h') hsame
 
 /-- in particular for histories with literally the same docid ↦ value mapping -/
-theorem c06_keyword_history_independent' (h h' : List (Op K))
+theorem c06_keyword_history_independent_get (h h' : List (Op K))
     (hsame : ∀ d, AMap.get (table h) d = AMap.get (table h') d) : ObsEq (run h) (run h') :=
   c06_keyword_history_independent h h' (tequiv_of_get_eq hsame)
 
@@ -55,7 +55,7 @@ theorem c06_keyword_history_independent' (h h' : List (Op K))
 (the inherited `BaseIndexMixin.reindex_doc`) -/
 theorem c06_keyword_reindex (h : List (Op K)) (d : Int) (v : Option (List K)) :
     ObsEq (run (h ++ [.index d v])) (run (h ++ [.unindex d, .index d v])) := by
-  apply c06_keyword_history_independent'
+  apply c06_keyword_history_independent_get
   intro d'
   simp only [table, List.foldl_append, List.foldl_cons, List.foldl_nil, stepT]
   exact (get_set_erase _ d v d').symm
@@ -98,14 +98,14 @@ theorem c06_keyword_reset (h : List (Op K)) :
 
 /-- … and is therefore indistinguishable from a new index, also after any further history -/
 theorem c06_keyword_reset_then (h g : List (Op K)) : ObsEq (run (h ++ .reset :: g)) (run g) := by
-  apply c06_keyword_history_independent'
+  apply c06_keyword_history_independent_get
   intro d
   simp [table, List.foldl_append, stepT]
 
 /-- operations that only touch the representation (`optimize()`, threshold changes) are invisible -/
 theorem c06_keyword_representation_invisible (h : List (Op K)) (op : Op K) (hop : op.isRepr = true)
     (g : List (Op K)) : ObsEq (run (h ++ op :: g)) (run (h ++ g)) := by
-  apply c06_keyword_history_independent'
+  apply c06_keyword_history_independent_get
   intro d
   have : stepT (table h) op = table h := by cases op <;> simp [Op.isRepr] at hop <;> rfl
   simp only [table, List.foldl_append, List.foldl_cons]
